@@ -324,7 +324,7 @@ def run_item(ctx, item):
         n_ = rng.randint(8, 80)
         grid = rng.choice([1, 2, 4])
         onsets = sorted(rng.randint(0, 12 * grid) / grid for _ in range(n_))
-        rows = [(o, rng.choice([0.25, 0.5, 0.5, 1.0, 2.0]), rng.randint(36, 96), f"r{i}") for i, o in enumerate(onsets)]
+        rows = [(o, rng.choice([0.25, 0.5, 0.5, 1.0, 2.0, 0.0]), rng.randint(36, 96), f"r{i}") for i, o in enumerate(onsets)]   # (0.0: a grace note)
         if rng.random() < 0.5:
             rng.shuffle(rows)
         na = np.array([(o, d, o, d, p, i) for o, d, p, i in rows],
@@ -335,11 +335,18 @@ def run_item(ctx, item):
                          ("estimate_spelling", lambda: MA.estimate_spelling(na)),
                          ("estimate_key", lambda: MA.estimate_key(na))):
             outs = []
+            image = na.tobytes()
             for _ in range(3):
                 ok, r_ = ctx.try_call(fn)
                 if not ok:
                     break
                 outs.append(r_)
+            ctx.check()
+            if na.tobytes() != image:
+                changed = [f for f in na.dtype.names if na[f].tobytes() != np.frombuffer(image, dtype=na.dtype)[f].tobytes()]
+                ctx.violation(f"argument-modified-by:{name.split('-')[0]}", f"{name} changed the note array it was given (columns {changed})",
+                              {"entry_point": name, "columns": changed})
+                na = np.frombuffer(image, dtype=na.dtype).copy()
             ctx.check()
             if len(outs) == 3 and not (same_result(outs[0], outs[1]) and same_result(outs[0], outs[2])):
                 ctx.violation(f"second-call-differs:{name.split('-')[0]}", f"{name} called three times on the same note array of {n_} rows gave different results",
